@@ -388,6 +388,10 @@ func (b *Biscuit) authorizerFor(root ed25519.PublicKey, opts ...AuthorizerOption
 				return nil, errors.New("biscuit: sealed token verification not implemented")
 			}
 
+			if len(privateKey) != ed25519.SeedSize {
+				return nil, ErrInvalidKeySize
+			}
+
 			publicKey := ed25519.NewKeyFromSeed(privateKey).Public()
 			if !bytes.Equal(currentKey, publicKey.(ed25519.PublicKey)) {
 				return nil, errors.New("biscuit: invalid last signature")
